@@ -8,7 +8,7 @@ import z3
 from .values import *       # noqa
 from .interp import Engine, State, Frame, exc, FuncV, ClassV, _EXC_CLASSES
 from .contracts import (Contract, ClassContract, Registry, split_union, fresh_typed, fresh_object, object_alternatives,
-                        eval_clause, resolve_exc, _as_z3)
+                        eval_clause, resolve_exc, _as_z3, assume_instances)
 from . import loader, solve
 
 
@@ -82,10 +82,13 @@ class Result:
         self.witness = witness
         self.path = path
         self.size = size
+        self.replayed = None
+        self.replay = None
 
     def as_dict(self):
         return {'id': self.oid, 'kind': self.kind, 'clause': self.clause, 'status': self.status, 'backend': self.backend,
-                'seconds': round(self.seconds, 3), 'detail': self.detail, 'witness': jsonable(self.witness), 'path': self.path}
+                'seconds': round(self.seconds, 3), 'detail': self.detail, 'witness': jsonable(self.witness), 'path': self.path,
+                'replayed': self.replayed, 'replay': self.replay}
 
 
 def _exc_name(ev):
@@ -159,6 +162,8 @@ def verify_contract(reg, c, timeout_ms=None, seed=0, collect_paths=False):
             st = State()
             env = {}
             st.frames.append(Frame(env, fi.module, fi, fi.cls))
+            if c.options.get('spec_target'):
+                st.frame.spec_mode = True       # the target is itself a spec function (a lemma): lazy `implies`, total spec forms
             desc = []
             for nm, (t, oa) in zip(pnames, combo):
                 if isinstance(t, str) and t.startswith('obj:'):
@@ -177,6 +182,7 @@ def verify_contract(reg, c, timeout_ms=None, seed=0, collect_paths=False):
                     st.assume(_as_z3(eval_clause(E, 'valid(%s)' % nm, st)))
             for cl in c.requires:
                 st.assume(_as_z3(eval_clause(E, cl, st)))
+            assume_instances(E, c, st, 'entry')
             n_entry += 1
             r, _m = solve.satisfiable(st.pc)
             if r == 'unsat':
@@ -220,6 +226,7 @@ def verify_contract(reg, c, timeout_ms=None, seed=0, collect_paths=False):
 
 def _collect(E, c, fi, outs, results, short, altdesc, env0, entry_oid, timeout_ms, seed, pnames):
     module = fi.module
+    reg_c = (E.registry, c)
     pending = []          # (id, kind, clause, pc, goal, state)
 
     def add(kind, name, clause, st, goal):
@@ -248,6 +255,7 @@ def _collect(E, c, fi, outs, results, short, altdesc, env0, entry_oid, timeout_m
                 if mode == 'iff':
                     g = eval_clause(E, 'not (old(%s))' % cond, st)
                     add('raises_iff', ename + '.if', 'returns normally, so the %s condition must be false: %s' % (ename, cond), st, g)
+            assume_instances(E, c, st, 'exit')
             # stepwise proof: each exit lemma is its own obligation and is then available to the clauses after it
             for nm, cl in (c.lemmas.get('exit') or {}).items():
                 g = eval_clause(E, cl, st)
@@ -287,21 +295,103 @@ def _collect(E, c, fi, outs, results, short, altdesc, env0, entry_oid, timeout_m
         if r['status'] == 'unsat':
             results.append(Result(oid, kind, clause, 'discharged', r['backend'], r['seconds'], path=altdesc))
         elif r['status'] == 'sat':
-            wit = None
-            if r['model'] is not None:
-                snap = st.snap if st.snap is not None else st
-                wit = {}
-                for nm in pnames:
-                    if nm in snap.frame.env:
-                        try:
-                            wit[nm] = concretize(r['model'], snap.frame.env[nm], snap)
-                        except Exception as ex:     # noqa
-                            wit[nm] = '<%s>' % ex
-            results.append(Result(oid, kind, clause, 'violated', r['backend'], r['seconds'], witness=wit, path=altdesc,
-                                  detail='counter-model found' + ('' if r['model'] is not None else ' (cvc5, no model extracted)')))
+            results.append(_triage_sat(reg_c, oid, kind, clause, pc, goal, st, r, pnames, altdesc, timeout_ms, seed))
         else:
             results.append(Result(oid, kind, clause, 'undecided', r['backend'], r['seconds'], path=altdesc,
                                   detail='solver: %s' % r.get('reason', 'unknown')))
+
+
+def _entry_terms(v, st, acc, depth=0):
+    """z3 terms of the symbolic entry values reachable from v (for blocking a refuted counter-model)"""
+    if isinstance(v, (SInt, SBool, SBytes)):
+        acc.append(v.t)
+    elif isinstance(v, tuple):
+        for x in v:
+            _entry_terms(x, st, acc, depth + 1)
+    elif isinstance(v, Ref) and depth < 4 and v.oid in st.heap:
+        h = st.heap[v.oid]
+        vals = list(h.fields.values())
+        if isinstance(h.items, list):
+            vals += h.items
+        elif isinstance(h.items, dict):
+            vals += list(h.items.values())
+        elif h.items is not None:
+            vals.append(h.items)
+        for x in vals:
+            if isinstance(x, LazyUnion):
+                for _t, a in x.alts:
+                    if a is not ABSENT:
+                        _entry_terms(a, st, acc, depth + 1)
+            else:
+                _entry_terms(x, st, acc, depth + 1)
+
+
+def _triage_sat(reg_c, oid, kind, clause, pc, goal, st, r, pnames, altdesc, timeout_ms, seed):
+    """a solver `sat` is a candidate counterexample.  It is replayed against the REAL function under CPython:
+       confirmed  -> violated, replayed (the witness breaks the clause natively);
+       refuted    -> the model is spurious (it exploits an under-constrained uninterpreted symbol: be(), pow2(), an opaque spec
+                     function, an assumed callee contract): block it and ask for another one; if every model found is refuted the
+                     obligation is NOT proved and NOT refuted: undecided;
+       not replayable (ghost state, abstract objects, inner state) -> violated, no failing input found."""
+    from . import replay as rp
+    reg, c = reg_c
+    snap = st.snap if st.snap is not None else st
+    model = r['model']
+    cur_pc = list(pc)
+    total = r['seconds']
+    refuted = 0
+    last_wit = None
+    while True:
+        wit = None
+        if model is not None:
+            wit = {}
+            for nm in pnames:
+                if nm in snap.frame.env:
+                    try:
+                        wit[nm] = concretize(model, snap.frame.env[nm], snap)
+                    except Exception as ex:     # noqa
+                        wit[nm] = '<%s>' % ex
+        last_wit = wit
+        d = {'id': oid, 'kind': kind, 'clause': clause, 'witness': jsonable(wit)}
+        verdict = None
+        if wit is not None:
+            try:
+                rp.replay_violation(reg, c, d)
+                verdict = True if d.get('replayed') else (False if d.get('replay') is not None else None)
+            except Exception as ex:      # noqa  not replayable
+                d['replay_error'] = str(ex)[:300]
+                verdict = None
+        if verdict is True:
+            res = Result(oid, kind, clause, 'violated', r['backend'], total, witness=wit, path=altdesc,
+                         detail='counter-model found and confirmed by native replay')
+            res.replayed, res.replay = True, d.get('replay')
+            return res
+        if verdict is None:
+            res = Result(oid, kind, clause, 'violated', r['backend'], total, witness=wit, path=altdesc,
+                         detail='counter-model found' + ('' if model is not None else ' (cvc5, no model extracted)') +
+                                '; native replay not possible: %s' % d.get('replay_error', 'no concrete input'))
+            res.replayed, res.replay = False, None
+            return res
+        # refuted natively: spurious model
+        refuted += 1
+        terms = []
+        for nm in pnames:
+            if nm in snap.frame.env:
+                _entry_terms(snap.frame.env[nm], snap, terms)
+        if refuted >= 5 or not terms:
+            break
+        block = z3.Or([t != model.eval(t, model_completion=True) for t in terms])
+        cur_pc.append(block)
+        r2 = solve.check_valid(cur_pc, goal, min(timeout_ms or 30000, 15000), use_cvc5=False, seed=seed, facts=st.facts)
+        total += r2['seconds']
+        if r2['status'] != 'sat' or r2['model'] is None:
+            break
+        model = r2['model']
+    res = Result(oid, kind, clause, 'undecided', r['backend'], total, witness=last_wit, path=altdesc,
+                 detail='%d counter-model(s) found, every one REFUTED by native replay on the real function (spurious: an uninterpreted '
+                        'symbol or assumed callee contract is under-constrained); not proved, not refuted' % refuted)
+    res.replayed, res.replay = False, None
+    return res
 
 
 def _aslist(x):
